@@ -112,8 +112,8 @@ def codes_of(vec_obj):
     return V.seq_of_terms([num(x) for x in it], 'list')
 
 
-def flags_value(fl, shift=0):
-    """OR of the members of a flag set, as a sum over the distinct bits"""
+def flags_value(fl, shift=0, width=None):
+    """OR of the members of a flag set, as a sum over the distinct bits; bits [shift, shift+width) only when width is given"""
     if isinstance(fl, SFlags):
         members = list(fl.bits.items())
     else:
@@ -129,8 +129,18 @@ def flags_value(fl, shift=0):
             b += 1
     total = z3.IntVal(0)
     for b, conds in bits.items():
+        if width is not None and b >= width:
+            continue
         total = total + z3.If(z3.Or(*conds), z3.IntVal(2 ** b), z3.IntVal(0))
     return total
+
+
+def flag_present(fl, member):
+    """case split of the specification on the presence of one flag"""
+    if isinstance(fl, SFlags):
+        from pyvc import engine as E
+        return E.cur().branch(fl.bits[member])
+    return member in fl
 
 
 def lift_deep(o, _seen=None):
